@@ -41,7 +41,7 @@ CASE_TIMEOUT = 6  # SymPy's simplify() occasionally needs minutes on a nested fl
 BUDGET = {"quick": (16, 900), "thorough": (16, 20000)}
 
 # (dimension names may coincide with the parser's function names: an identifier is a call only when '(' follows)
-SYMS = ["N", "M", "batch", "a.b", "seq_len", "max", "floor", "mod"]
+SYMS = ["N", "M", "batch", "a.b", "seq_len", "max", "floor", "mod", "größe", "批量", "Länge_2"]
 # leaves built from a SymPy symbol (SymbolicDim accepts sympy.Expr): assumptions other than the parser's own
 FLAVOURS = {"plain": {}, "integer": {"integer": True}, "posint": {"integer": True, "positive": True},
             "nonneg": {"integer": True, "nonnegative": True}}
@@ -440,6 +440,18 @@ def execute(case):
         return r[0]
 
     check("shape-partial", shape_partial)
+
+    def shape_edited_after_queries():
+        # a history on one Shape object: queried first, then a dimension is assigned, then queried again
+        sh = ir.Shape([7, ir.SymbolicDim("zz_other"), 3])
+        sh.free_symbols()
+        sh.evaluate({"zz_other": 2})
+        sh[0] = d
+        if set(sh.free_symbols()) != set(d.free_symbols()) | {"zz_other"}:
+            raise ValueError(f"free_symbols() after shape[0] = d: {sorted(sh.free_symbols())}")
+        return sh.evaluate(dict(bind, zz_other=2))[0]
+
+    check("shape-evaluate-after-setitem", shape_edited_after_queries)
     if n_ops <= 4:
         check("shape-simplify", lambda: _ev(ir.Shape([3, d]).simplify()[1]))
 
